@@ -54,6 +54,8 @@ R.contract(
     modifies=_MOD,
     ensures=[
         "forall(lambda x: self.gview[x] == (old(self.gview)[x] or (start <= x < stop_)))",
+        # at most one range more (insert / append), fewer after a merge
+        "len(RL(self)) <= old(len(RL(self))) + 1",
     ],
     loops={
         0: dict(
